@@ -210,6 +210,8 @@ type dconn struct {
 	closed bool
 	chg    chan struct{} // closed and replaced whenever deadlines / closed change
 	nclose int
+	// direction-wise: the fault kind every further operation repeats ("" = healthy)
+	stickyR, stickyW string
 }
 
 func newDConn(run *dialRun, under net.Conn) *dconn {
@@ -306,14 +308,50 @@ func (w *dconn) block(op *opRec, read bool) error {
 	}
 }
 
+// A transport that has failed stays failed: after an injected fault every later
+// operation in the same direction on this connection fails in the same way
+// (a broken or ended stream does not heal; a deadline that has expired keeps
+// expiring until a deadline call for that direction arms a new one).  The
+// repetitions are logged as faults of their own (how = "imm").
+func (w *dconn) sticky(op *opRec, read bool) string {
+	w.mu.Lock()
+	k := w.stickyW
+	if read {
+		k = w.stickyR
+	}
+	w.mu.Unlock()
+	if k != "" {
+		w.run.mu.Lock()
+		op.Flt, op.How, op.Within = k, "imm", true
+		w.run.mu.Unlock()
+	}
+	return k
+}
+
+func (w *dconn) setSticky(kind string, read bool) {
+	w.mu.Lock()
+	if read {
+		w.stickyR = kind
+	} else {
+		w.stickyW = kind
+	}
+	w.mu.Unlock()
+}
+
 func (w *dconn) Read(p []byte) (int, error) {
 	op, flt := w.begin("R", false)
 	switch flt {
 	case "":
+		if k := w.sticky(op, true); k != "" {
+			return 0, fltErr(k)
+		}
 		return w.under.Read(p)
 	case "timeout":
-		return 0, w.block(op, true)
+		err := w.block(op, true)
+		w.setSticky("timeout", true)
+		return 0, err
 	}
+	w.setSticky(flt, true)
 	return 0, fltErr(flt)
 }
 
@@ -321,10 +359,16 @@ func (w *dconn) Write(p []byte) (int, error) {
 	op, flt := w.begin("W", false)
 	switch flt {
 	case "":
+		if k := w.sticky(op, false); k != "" {
+			return 0, fltErr(k)
+		}
 		return w.under.Write(p)
 	case "timeout":
-		return 0, w.block(op, false)
+		err := w.block(op, false)
+		w.setSticky("timeout", false)
+		return 0, err
 	}
+	w.setSticky(flt, false)
 	return 0, fltErr(flt)
 }
 
@@ -336,9 +380,15 @@ func (w *dconn) setDL(kind string, t time.Time, r, wr bool) error {
 	w.mu.Lock()
 	if r {
 		w.rd = t
+		if w.stickyR == "timeout" {
+			w.stickyR = ""
+		}
 	}
 	if wr {
 		w.wd = t
+		if w.stickyW == "timeout" {
+			w.stickyW = ""
+		}
 	}
 	w.signal()
 	w.mu.Unlock()
